@@ -29,7 +29,7 @@
   "C14"
  ],
  "level": "U/iter",
- "tier": "wip",
+ "tier": "quick",
  "harness": "h_rw_bitmaps",
  "replace": [
   "read_bitmaps_range_prepare",
@@ -49,6 +49,7 @@
   "lib/ext2fs/rw_bitmaps.c:ext2fs_rw_bitmaps"
  ],
  "assumes": [
+  "NEEDS the hooks in hooks-pending/csr.diff (named loop anchors in lib/ext2fs/rw_bitmaps.c and lib/ext2fs/csum.c): tier wip until they are merged; green with VERIF_REPO=<tree with the hooks>",
   "THREAD INTERLEAVINGS NOT MODELLED: pthread_create / pthread_join are sequential stubs (see file comment); data races are outside this unit",
   "(num_threads, group_desc_count, flex_bg) ENUMERATED, one call site each: (2,2,no) (2,37,no) (3,100,no) (4,4,no) (4,1001,no) (2,40,yes) (4,100,yes) -- the function lowers num_threads to the group count when there are fewer groups, so with symbolic values the partition has a symbolic divisor and symbolic loop bounds (formula > 10 GB); s_log_groups_per_flex = 4; the AGGREGATION statements do not depend on these values; channel has CHANNEL_FLAGS_THREADS, no EXT2_FLAG_IMAGE_FILE, flags = BLOCK | INODE read request",
   "read_bitmaps_range_prepare / _end / _cleanup_on_error / read_bitmaps_range / write_bitmaps replaced by contracts (arbitrary result, call recorded; _end: REQUIRES = the two tail-flag statements); calloc is a unit stub (malloc + memset) that does not fail; free is the CBMC library model",
@@ -85,6 +86,7 @@
   "lib/ext2fs/rw_bitmaps.c:ext2fs_rw_bitmaps"
  ],
  "assumes": [
+  "NEEDS the hooks in hooks-pending/csr.diff (named loop anchors in lib/ext2fs/rw_bitmaps.c and lib/ext2fs/csum.c): tier wip until they are merged; green with VERIF_REPO=<tree with the hooks>",
   "as rw_bitmaps_join, but calloc may fail: observation unit -- the precondition of read_bitmaps_range_end (all workers were started) FAILS when the second calloc fails: ext2fs_rw_bitmaps then returns 0 without having allocated or read any bitmap (allocation-failure path, outside the statements of C14/C17/C06; reported as a side observation)"
  ],
  "native": false,
